@@ -151,6 +151,7 @@ Section WithTables.
       destruct mx; injection H as <- <-; [destruct Hin as [[=]|[]]|contradiction].
     - unfold get_mute in H. destruct mx; injection H as <- <-; [destruct Hin as [[=]|[]]|contradiction].
     - unfold set_mute in H. destruct mx; injection H as <- <-; [destruct Hin as [[=]|[]]|contradiction].
+    - injection H as <- <-. contradiction.
   Qed.
 
 
